@@ -239,7 +239,7 @@ def guard(fn):
         try:
             return fn(*a, **k)
         except Unsupported as e:
-            return dict(unit=k.get('unit') or (a[0] if a else fn.__name__), status='unsupported', detail=str(e),
+            return dict(unit='%s%s' % (fn.__name__, tuple(a)), status='unsupported', detail=str(e),
                         obligations=[], twins={}, violations=[], unreproduced=[])
     return w
 
